@@ -32,6 +32,7 @@ static unsigned long live_n, live_b;
 static uintptr_t lo, hi, base;
 static int ready;
 static __thread int inside;
+static __thread int noattr; /* set while the recorder callback (driver code below Snoopy's frame) runs */
 
 static void *(*r_malloc)(size_t);
 static void *(*r_calloc)(size_t, size_t);
@@ -86,7 +87,7 @@ static void track(void *p, size_t sz) {
     s.nfr = backtrace(s.fr, NFR);
     inside = 0;
     if (!lo) dl_iterate_phdr(cb, NULL);
-    for (int i = 0; i < s.nfr; i++)
+    for (int i = 0; i < s.nfr && !noattr; i++)
         if ((uintptr_t) s.fr[i] >= lo && (uintptr_t) s.fr[i] < hi) s.snoopy = 1;
     s.p = p;
     s.sz = sz;
@@ -170,6 +171,8 @@ __attribute__((visibility("default"))) void free(void *p) {
     r_free(p);
 }
 
+__attribute__((visibility("default"))) void vheap_noattr(int on) { noattr = on; }
+
 __attribute__((visibility("default"))) void vheap_mark(void) {
     lock();
     markseq = seqno;
@@ -179,12 +182,17 @@ __attribute__((visibility("default"))) void vheap_mark(void) {
 __attribute__((visibility("default"))) int vheap_snapshot(char *buf, size_t cap) {
     size_t off = 0;
     int nrep = 0;
-    unsigned long sn = 0, sb = 0, on = 0;
+    unsigned long sn = 0, sb = 0, on = 0, sl = 0, slb = 0;
     lock();
     off += snprintf(buf + off, cap - off, "{\"live\":%lu,\"bytes\":%lu,\"blocks\":[", live_n, live_b);
     for (unsigned i = 0; i < NSLOT; i++) {
         struct slot *t = &tab[i];
-        if (t->p == NULL || t->p == TOMB || t->seq <= markseq) continue;
+        if (t->p == NULL || t->p == TOMB) continue;
+        if (t->snoopy) {
+            sl++;
+            slb += t->sz;
+        }
+        if (t->seq <= markseq) continue;
         if (!t->snoopy) {
             on++;
             continue;
@@ -202,7 +210,7 @@ __attribute__((visibility("default"))) int vheap_snapshot(char *buf, size_t cap)
             nrep++;
         }
     }
-    off += snprintf(buf + off, cap - off, "],\"since_mark_snoopy\":%lu,\"since_mark_snoopy_bytes\":%lu,\"since_mark_other\":%lu}", sn, sb, on);
+    off += snprintf(buf + off, cap - off, "],\"since_mark_snoopy\":%lu,\"since_mark_snoopy_bytes\":%lu,\"since_mark_other\":%lu,\"snoopy_live\":%lu,\"snoopy_live_bytes\":%lu}", sn, sb, on, sl, slb);
     unlock();
     return (int) off;
 }
